@@ -23,10 +23,11 @@ THEOREMS = ['C12_pure', 'C12_iff', 'C12_iff_refuted', 'C12_nonvacuous', 'C12_hsm
             'C12_hsm_may_characterisation', 'C12_hsm_nonvacuous', 'C12_any_env', 'C12_hsm_any_env']
 
 
-def gen(rng, i, tier):
+def gen(rng, i, tier, force_malformed=None):
     cls = CLASSES[i % len(CLASSES)]
     # unregistered destinations: flat classes only (hierarchical classes reject them before the exit callbacks)
-    c = flat.gen_case(rng, malformed=(i % 6 == 5 and 'Hierarchical' not in cls), hist_len=1, p_unknown=0.0)
+    c = flat.gen_case(rng, malformed=((i % 6 == 5 and 'Hierarchical' not in cls) if force_malformed is None else force_malformed),
+                      hist_len=1, p_unknown=0.0)
     c['env']['bypos'] = {}
     ne = len(c['machine']['events'])
     hist = []
@@ -157,10 +158,47 @@ def extra_checks(tier, seed):
                 if msg and ofail is None:
                     ofail = (c, i, 'call %d: %s' % (j, msg))
     detail = dict(cases=len(cases), disagreements=len(bad), may_true=may_true, may_false=may_false)
+    out = []
     if ofail:
         c, i, msg = ofail
-        return [('hierarchical_may', False, detail, dict(kind='oracle', stream='hierarchical', case=c, impl_obs=i, failing_clause=msg))]
+        out.append(('hierarchical_may', False, detail, dict(kind='oracle', stream='hierarchical', case=c, impl_obs=i, failing_clause=msg)))
+    elif bad:
+        c, m, i = bad[0]
+        out.append(('hierarchical_may', False, detail, dict(kind='counterexample', stream='hierarchical', case=c, model_obs=m, impl_obs=i)))
+    else:
+        out.append(('hierarchical_may', True, detail, {}))
+    out.append(async_flat_stream(tier, seed))
+    return out
+
+
+def async_flat_stream(tier, seed):
+    """the flat asyncio classes (their own copy of _can_trigger): the (may_trigger; trigger) pairs of the main stream,
+    callback lists trimmed to one entry, incl. the malformed stream (unregistered destinations) and raising
+    callbacks, on AsyncMachine / AsyncGraphMachine, against the flat Coq engine"""
+    import framework as F
+    n = 400 if tier == 'quick' else 10000
+    cases = []
+    for i in range(n):
+        rng = random.Random('C12a-%d-%d' % (seed, i))
+        c = gen(rng, i, tier, force_malformed=(i % 2 == 1))       # every second case from the malformed stream
+        c = flat.trim_flat(c)
+        ne = len(c['machine']['events'])
+        c['history'] = [(k, e, a) for (k, e, a) in c['history'] if e < ne] or [(1, 0, 100), (0, 0, 101)]
+        c['cls'] = ['AsyncMachine', 'AsyncGraphMachine'][i % 2]
+        cases.append(c)
+    mo = F.run_model(0, [flat.enc_case(c) for c in cases])
+    io = F.run_impl('flat', 'impl_flat_async', cases)
+    bad = []
+    kf = 0
+    for c, m, i in zip(cases, mo, io):
+        if m != i:
+            if classify_known(c, m, i):
+                kf += 1
+            else:
+                bad.append((c, m, i))
+    detail = dict(cases=len(cases), disagreements=len(bad), known_finding_class=kf,
+                  cases_with_unregistered_destination=sum(1 for c in cases if not in_envelope(c)) if 'in_envelope' in globals() else None)
     if bad:
         c, m, i = bad[0]
-        return [('hierarchical_may', False, detail, dict(kind='counterexample', stream='hierarchical', case=c, model_obs=m, impl_obs=i))]
-    return [('hierarchical_may', True, detail, {})]
+        return ('async_flat_may', False, detail, dict(kind='counterexample', stream='flat asyncio classes', case=c, model_obs=m, impl_obs=i))
+    return ('async_flat_may', True, detail, {})
